@@ -120,7 +120,7 @@ def real_run(build, files, script, prof_mod):
 
 
 def run(ctx):
-    ctx.prove('LPVerif.Props.C09', 'LPVerif/Props/C09.lean', drivers=('Select',))
+    ctx.prove('LPVerif.Props.C09', 'LPVerif/Props/C09.lean', drivers=('Select', 'FS'))
     build = ctx.build()
     nprog = 25 if ctx.quick else 400
     if ctx.broken:
